@@ -108,22 +108,29 @@ func c20Hash(c *Ctx) {
 			continue
 		}
 		w := calls[0]
-		ok := !ssax.ReachableAvoiding(fn, sum, nil, []ssa.Instruction{w}) || strings.Contains(k, ".")
+		// a write that sits in a loop over a literal list of chunks (a variadic helper expanded in place) runs for every
+		// chunk: what has to be passed on every path is then the head of that inner loop
+		var must ssa.Instruction = w
+		if h := fixedTripLoopHead(fn, w); h != nil {
+			must = h
+		}
+		w = nil
+		ok := !ssax.ReachableAvoiding(fn, sum, nil, []ssa.Instruction{must}) || strings.Contains(k, ".")
 		detail := ""
 		if strings.Contains(k, ".") {
 			slice := strings.Split(k, ".")[0]
 			it := iterStart[slice]
 			if it == nil {
 				ok, detail = false, "no loop over msg."+slice
-			} else if ssax.ReachableFrom(fn, it, it, nil, []ssa.Instruction{w}) {
+			} else if ssax.ReachableFrom(fn, it, it, nil, []ssa.Instruction{must}) {
 				ok, detail = false, "an iteration over msg."+slice+" can complete without writing this field (conditional write)"
-			} else if !ssax.ReachableFrom(fn, it, w, nil, nil) {
+			} else if !ssax.ReachableFrom(fn, it, must, nil, nil) {
 				ok, detail = false, "the write is not inside the loop over msg."+slice
 			}
 		} else if !ok {
 			detail = "the digest is reachable without this write"
 		}
-		r.Check(ok, "C20/R1", "types.CalcStartReInitDKGMessageHash:covers:"+k, "field "+k+" is written into the hash for every element / on every path", c.PosOf(w), detail)
+		r.Check(ok, "C20/R1", "types.CalcStartReInitDKGMessageHash:covers:"+k, "field "+k+" is written into the hash for every element / on every path", c.PosOf(must), detail)
 	}
 	// no filter: every branch is a loop bound or an error test of a call
 	var odd []string
@@ -412,4 +419,42 @@ func holdsOriginalMessage(a *ssa.Alloc) bool {
 		}
 	}
 	return false
+}
+
+// fixedTripLoopHead: w lies in a loop `for i := range <literal list of n >= 1 elements>` whose body cannot reach the next
+// test or the loop exit without executing w; returns the loop's test (every pass through it runs the body, hence w, for
+// every element of the list, unless w itself fails). nil if w is not in such a loop.
+func fixedTripLoopHead(fn *ssa.Function, w ssa.CallInstruction) ssa.Instruction {
+	win := w.(ssa.Instruction)
+	for _, cd := range ssax.Conds(fn) {
+		if cd.Op != token.LSS || cd.Y == nil {
+			continue
+		}
+		n, ok := ssax.ConstInt(cd.Y)
+		if !ok || n < 1 {
+			continue
+		}
+		// range-style counter starting at 0
+		if !strings.Contains(ssax.Path(cd.X), "<cycle> + 1)|-1) + 1") {
+			continue
+		}
+		body := cd.If.Block().Succs[0]
+		if len(body.Instrs) == 0 {
+			continue
+		}
+		first := body.Instrs[0]
+		// w is in the loop: reachable from the body and reaches the test again
+		if first != win && !ssax.ReachableFrom(fn, first, win, nil, []ssa.Instruction{cd.If}) {
+			continue
+		}
+		if !ssax.ReachableFrom(fn, win, cd.If, nil, nil) {
+			continue
+		}
+		// the body cannot come back to the test without executing w
+		if first != win && ssax.ReachableFrom(fn, first, cd.If, nil, []ssa.Instruction{win}) {
+			continue
+		}
+		return cd.If
+	}
+	return nil
 }
